@@ -17,6 +17,8 @@ use crate::{config, gossip, io, noise, pool::PoolWatch, preface, rpc, MeteredStr
 mod handshake;
 #[cfg(test)]
 mod tests;
+#[cfg(era_consensus_verif)]
+pub mod verif;
 
 const RESP_MAX_SIZE: usize = kB;
 /// Frequency at which the validator broadcasts its own IP address.
